@@ -39,7 +39,7 @@ VARIABLES l, S, dig, skip, lastcmp, stats
 vars == <<l, S, dig, skip, lastcmp, stats>>
 
 Stats0 == [cases |-> 0, bad |-> 0, unspec |-> 0, judged |-> 0, refusals |-> 0, passes |-> 0,
-           evals |-> 0, owned |-> 0, adopted |-> 0, updates |-> 0, skipped |-> 0, left |-> 0]
+           evals |-> 0, owned |-> 0, adopted |-> 0, updates |-> 0, skipped |-> 0, left |-> 0, drift |-> 0]
 
 Init == /\ l = 1 /\ S = EmptyState /\ dig = <<>> /\ skip = FALSE /\ lastcmp = FALSE /\ stats = Stats0
 
@@ -61,8 +61,6 @@ CheckLive(e, S2, dig2) ==
   LET hs == (DOMAIN S2.hd) \ Hidden IN
   IF ObsHandles(e) # hs THEN "live-set"
   ELSE IF \E h \in hs : ObsOf(e, h).x # dig2[h] THEN "immutable"
-  \* between two API calls no consumer counter is left over (read through the public Debug output, when it has one)
-  ELSE IF \E h \in hs : Has(ObsOf(e, h), "cc") /\ ObsOf(e, h).cc # 0 THEN "counter-residue"
   ELSE IF \E h \in hs : ObsOf(e, h).t # S2.hd[h].trk THEN "tracked-flag"
   ELSE IF \E h \in hs : ObsOf(e, h).g # IsSome(S2.grad[S2.hd[h].n]) THEN "grad-presence"
   ELSE IF \E h \in hs : Has(ObsOf(e, h), "gt") /\ ObsOf(e, h).gt.d # S2.grad[S2.hd[h].n].x.d THEN "grad-dims"
@@ -156,12 +154,11 @@ JudgeBackward(e) ==
      ELSE IF Len(evs) # Cardinality(expectU) THEN Bad("eval-once")
      ELSE IF \E i \in 1..Len(evs) : ~TMatch(evs[i].adj, adj[nodeOf(evs[i].u)].x) THEN Bad("eval-adjoint")
      ELSE IF badOrder THEN Bad("eval-order")
-     \* the closure receives the tracked-at-use flags of its operands, and the operands are un-tracked while it runs
+     \* the closure receives the tracked-at-use flags of its operands (the documented &[bool] argument)
      ELSE IF \E i \in 1..Len(evs) : Has(evs[i], "t") /\
                evs[i].t # [k \in 1..Len(S.nodes[nodeOf(evs[i].u)].kids) |-> S.nodes[nodeOf(evs[i].u)].kids[k].trk]
           THEN Bad("eval-flags")
-     ELSE IF \E i \in 1..Len(evs) : Has(evs[i], "ct") /\ \E k \in 1..Len(evs[i].ct) : evs[i].ct[k]
-          THEN Bad("eval-operands-tracked")
+
      ELSE JS("", S2, dig, <<"passes">> \o [i \in 1..Len(evs) |-> "evals"] \o [n \in 1..Cardinality(stored) |-> "adopted"])
 
 \* symbolic domain: after an update the new parameter values are the observed ones (so that terms do not
@@ -307,6 +304,14 @@ RebindGrads(S2, e) ==
       LET hs == { h \in (DOMAIN S2.hd) \ Hidden : S2.hd[h].n = n /\ h \in ObsHandles(e) /\ Has(ObsOf(e, h), "gt") } IN
       IF IsSome(S2.grad[n]) /\ hs # {} THEN Some(TIn(ObsOf(e, CHOOSE h \in hs : TRUE).gt)) ELSE S2.grad[n]]]
 
+\* Implementation-model drift (REPORT ONLY, never a verdict): internals that AutodiffImpl predicts but that no
+\* property promises - a consumer counter left non-zero between two API calls (read from the public Debug output
+\* when it has such a field), operands still tracked while a user derivative closure runs.  A refactoring that
+\* keeps every property may change these, so they only feed the evidence field impl_model_drift.
+Drift(e) ==
+  \/ \E i \in 1..Len(e.live) : Has(e.live[i], "cc") /\ e.live[i].cc # 0
+  \/ Has(e, "evals") /\ \E i \in 1..Len(e.evals) : Has(e.evals[i], "ct") /\ \E k \in 1..Len(e.evals[i].ct) : e.evals[i].ct[k]
+
 RECURSIVE Bump(_,_)
 Bump(st, ks) == IF ks = <<>> THEN st ELSE Bump([st EXCEPT ![Head(ks)] = @ + 1], Tail(ks))
 
@@ -329,7 +334,7 @@ Step ==
                 /\ Report(e, why)
                 /\ skip' = TRUE /\ stats' = [stats EXCEPT !.bad = @ + 1] /\ UNCHANGED <<S, dig, lastcmp>>
              ELSE /\ S' = RebindGrads(j.S, e) /\ dig' = j.dig /\ lastcmp' = j.cmp /\ skip' = FALSE
-                  /\ stats' = Bump(stats, j.st)
+                  /\ stats' = Bump(stats, IF Drift(e) THEN j.st \o <<"drift">> ELSE j.st)
   /\ l' = l + 1
 
 Spec == Init /\ [][Step]_vars
